@@ -114,6 +114,16 @@ func zooValues() []valSpec {
 		{Name: "nil-decimal", Data: (*decimal.Big)(nil)},
 		{Name: "chan", Data: make(chan int)},
 		{Name: "error-value", Data: errors.New("e")},
+		// coefficients beyond 64 bits with extreme exponents (the decimal library keeps these in a
+		// big.Int and several of its conversions multiply the exponent out)
+		{Name: "long-coef-huge-exp", Expr: "92233720368547758080e999999999"},
+		{Name: "long-coef-tiny-exp", Expr: "92233720368547758080e-999999999"},
+		{Name: "23-digit-coef-e8", Expr: "12345678901234567890123e99999999"},
+		{Name: "finite-huge-exp", Expr: "1e999999999"},
+		{Name: "finite-tiny-exp", Expr: "1e-999999999"},
+		{Name: "str-long-coef-tiny-exp", Data: "92233720368547758080E-999999999999999999"},
+		{Name: "str-long-coef-huge-exp", Data: "12345678901234567890123e99999999"},
+		{Name: "neg-long-coef-huge-exp", Expr: "(-92233720368547758080e999999999)"},
 	}
 	for i := range vals {
 		if vals[i].Expr == "" {
